@@ -62,3 +62,20 @@ PROPS["C16"] = dict(num=16, labs=["doc"], rule=DOC_RULE, nontrivial="at least on
 PROPS["C17"] = dict(num=17, labs=["doc"], rule=DOC_RULE, nontrivial="at least one run in the request", trivial_classes=[0, 4, 8, 12, 32, 36, 40, 44, 64, 68, 72, 76, 96, 100, 104, 108],
     signatures={"17.1": "a private address (or data derived from it) is still in the output", "17.2": "hop count/order/TTL changed, or a public hop was altered"},
     trusted_base=DOC_TRUSTED, assumptions=[])
+
+POL_RULE = ("Policy lab under synctest: (3) cache.GetWithExpiration operation sequences over 3 keys with callback success/failure, expirations -1/0/1s/90s/1h and "
+            "clock advances landing exactly on / 1 ns after pending expiries; (4) the real publicip.GetPublicIP over a scripted http.RoundTripper (1..5 providers, per-attempt "
+            "scripts: status classes 2xx/3xx/4xx/5xx x valid/invalid body, transport error, body-read error, hang, answers slower than the per-provider deadline; backoff randomisation off); "
+            "(5) reversedns.GetReverseDnsForIPs against a resolver that answers after a delay or never.")
+PROPS["C18"] = dict(num=18, labs=["doc", "pol"], rule=DOC_RULE + " " + POL_RULE,
+    nontrivial="a request with at least one run (doc lab) / any policy-lab case", trivial_classes=[0, 4, 8, 12, 32, 36, 40, 44, 64, 68, 72, 76, 96, 100, 104, 108],
+    signatures={"18": "names attached to a hop/destination differ from the resolver's answer for that address", "18.2": "cache served a value no earlier successful callback produced, cached a failure, or mis-reported the callback",
+                "18.3": "provider iteration: a provider after the winner was queried / one before it was skipped / the winner's script does not succeed", "18.4": "reverse-DNS fan-out lost or invented an answer"},
+    trusted_base=DOC_TRUSTED + ["go-cache Get/Set and cenkalti/backoff Retry are modelled (validated by the correspondence); the process-wide cache is re-created without its real-clock janitor inside the lab"],
+    assumptions=["backoff randomisation is switched off in the lab (RandomizationFactor 0) so that retry instants are deterministic"])
+PROPS["C08"] = dict(num=8, labs=["eng", "pol"], rule=ENG_RULE + " One case in five cancels the caller's context at an arbitrary virtual instant. " + POL_RULE,
+    nontrivial="any case other than an empty script without cancellation", trivial_classes=[0, 1],
+    signatures={"8": "engine run exceeded its computable bound", "8.1": "cancelled run did not return the cancellation error within poll + delay", "8.2": "public-IP lookup exceeded providers x per-checker timeout",
+                "8.3": "reverse-DNS lookup exceeded its timeout", "9": "a valid scripted run returned an error", "10": "engine panicked", "3.1": "out-of-range reply produced a path"},
+    trusted_base=ENG_TRUSTED + ["scripted http.RoundTripper honours the request's context exactly like net/http's transport would (oracle: HTTP client and resolver return by the deadline of the context they are given)"],
+    assumptions=["SACK dial/handshake deadlines and RunTraceroute-level composition are not covered by this check (partial)"])
